@@ -371,3 +371,52 @@ def programG (cfg : Cfg) : G Program := do
 def run {α} (seed : Nat) (g : G α) : α := (g.run ⟨UInt64.ofNat seed⟩).1
 
 end Ase.Gen
+
+namespace Ase.Gen
+open Ase Ase.Spec
+
+def edgeOrAny : G UInt8 := do
+  if ← chance 2 3 then pick [0, 1, 2, 63, 64, 127, 128, 129, 191, 192, 253, 254, 255] else byte
+
+/-- pixel for blend enumerations: alpha often 0 / 255, channels biased to boundaries, grey and
+    near-grey colours, and r == g < b (the set_sat aliasing case) -/
+def blendPixel : G RGBA := do
+  let k ← below 12
+  let a ← (do let j ← below 6; if j == 0 then pure (0 : UInt8) else if j ≤ 2 then pure 255 else edgeOrAny)
+  if k == 0 then do let v ← edgeOrAny; pure ⟨v, v, v, a⟩
+  else if k == 1 then do
+    let v ← edgeOrAny
+    let w ← edgeOrAny
+    pure ⟨v, v, w, a⟩
+  else if k == 2 then do
+    let v ← edgeOrAny
+    let w ← edgeOrAny
+    pure ⟨v, w, w, a⟩
+  else if k == 3 then do
+    let v ← range 1 254
+    pure ⟨UInt8.ofNat v, UInt8.ofNat (v + 1), UInt8.ofNat (v - 1), a⟩
+  else pure ⟨← edgeOrAny, ← edgeOrAny, ← edgeOrAny, a⟩
+
+def rgbaBytes (px : List RGBA) : Bytes := (px.map (fun c => [c.r, c.g, c.b, c.a])).flatten
+
+/-- two-layer RGBA sprite whose cels enumerate pixel pairs: layer 0 (Normal, opaque) holds the
+    backdrops, layer 1 (blend mode `mode`, opacities `lop`/`cop`) the sources -/
+def blendProgram (mode lop cop w h : Nat) (back src : List RGBA) : Program :=
+  let hdr : HeaderSpec :=
+    { fileSize := 0, width := UInt16.ofNat w, height := UInt16.ofNat h, depth := 32, flags := 1,
+      speed := 100, ph1 := 0, ph2 := 0, tci := 0, ign1 := 0, ign2 := 0, numColors := 0,
+      pixelW := 1, pixelH := 1, gridX := 0, gridY := 0, gridW := 16, gridH := 16,
+      reserved := zeros 84 }
+  let layer (blend op : Nat) : ChunkSpec :=
+    ⟨.layer ⟨1, 0, 0, 0, 0, UInt16.ofNat blend, UInt8.ofNat op, 0, 0, utf8 "L", 0⟩, []⟩
+  let cel (l op : Nat) (px : List RGBA) : ChunkSpec :=
+    ⟨.cel ⟨UInt16.ofNat l, 0, 0, UInt8.ofNat op, zeros 7,
+           .image (UInt16.ofNat w) (UInt16.ofNat h) (rgbaBytes px) none⟩, []⟩
+  ⟨hdr, [⟨100, false, 4, 0, 0, [layer 0 255, layer mode lop, cel 0 255 back, cel 1 cop src]⟩], []⟩
+
+def blendPixelsG (n : Nat) : G (List RGBA × List RGBA) := do
+  let back ← (List.range n).mapM (fun _ => blendPixel)
+  let src ← (List.range n).mapM (fun _ => blendPixel)
+  pure (back, src)
+
+end Ase.Gen
